@@ -437,8 +437,8 @@ class Prop(Check):
         "Repo.C17_cached_reload",
     ]
     DRIVER = "Drivers/Repo.lean"
-    QUICK_CASES = 320
-    THOROUGH_CASES = 12000
+    QUICK_CASES = 300
+    THOROUGH_CASES = 5000
     FAULT_BIAS = 0.25
     RULE = ("directories of <=6 model files in <=3 directories with random import graphs (exact, glob, search-path "
             "imports; cycles, diamonds, self-imports), 6 providers x global repository on/off x builtin models, "
@@ -589,6 +589,15 @@ class Prop(Check):
         return case
 
     def gen(self, rng, n, tier):
+        if tier == "thorough":
+            # complete: every import graph over <=3 files (self-imports included)
+            for g in all_graphs(3):
+                for prov, glob in (("plain_uri", True), ("plain_uri", False), ("rrel", True), ("fqn_uri", False)):
+                    tab = graph_table(g)
+                    last = len(g) - 1
+                    yield {"provider": prov, "glob": glob, "builtin": [], "files": graph_files(len(g)),
+                           "exhaustive": True,
+                           "steps": [{"main": 0, "files": tab}, {"main": 0, "files": tab}, {"main": last, "files": tab}]}
         for _ in range(n):
             yield self.gen_case(rng, self.FAULT_BIAS)
 
@@ -717,7 +726,28 @@ class Prop(Check):
                         dist["cached_hits"] += 1
                 else:
                     dist["fail"][s["res"]] = dist["fail"].get(s["res"], 0) + 1
-        return {"distribution": dist}
+        ex = sum(1 for c in cases if c.get("exhaustive"))
+        out = {"distribution": dist}
+        if ex:
+            out["exhaustive"] = f"{ex} cases: every import graph over <=3 files (complete enumeration)"
+        return out
+
+
+def all_graphs(nmax):
+    """every directed graph (adjacency lists, self loops allowed) on 1..nmax nodes"""
+    for n in range(1, nmax + 1):
+        for bits in range(1 << (n * n)):
+            yield [[j for j in range(n) if bits >> (i * n + j) & 1] for i in range(n)]
+
+
+def graph_files(n):
+    return [{"dir": "", "base": f"f{i}.m"} for i in range(n)]
+
+
+def graph_table(g):
+    """file i defines n{i} and refers to its own name and the names of the files it imports"""
+    return [{"imports": [{"pat": f"f{j}.m", "expect": [j]} for j in adj], "defs": [NAMES[i]],
+             "refs": [NAMES[i]] + [NAMES[j] for j in adj]} for i, adj in enumerate(g)]
 
 
 def active_imports_any(case, step, i):
